@@ -19,10 +19,19 @@ U("c13_wildcard", ["C13"], "h_wildcard", ["C13/tr.c", "C13/file_tu.c"], _C13_REP
 
 PROPS["C13"] = {
     "level": "other",
-    "explanation": "Two bounded units on the REAL mmd_transclude_source with the file system (scan_file) and the MMD engine stubbed: (1) c13_marker_buffer -- for every marker position and EVERY marker length (source up to 2^20 bytes, strstr/strncpy as contract models, <= 2 markers per source, every file missing) all accesses to text[1100] are in bounds, the >=1000-byte marker is skipped, the source is left untouched, the caller's parse stack is restored and no recursion happens; (2) c13_wildcard -- for every output format the marker {{a.*}} requests exactly /a.html (HTML, HTML+assets, EPUB), /a.tex (LaTeX, Beamer, Memoir), /a.fodt (ODT, FODT), /a.* (MMD), /a.txt (all others) and a missing file leaves its marker in place.",
-    "slice": "mmd_transclude_source (transclude.c) with path_from_dir_base/split_path_file/is_separator/add_trailing_sep (file.c) and stack.c bodies",
-    "not_reached": "recursion guard / termination on include graphs and the substitution result (a unit over a ghost file system with symbolic 1-marker documents was built, C13/tr.c h_graph, but CBMC runs out of 14 GB in propositional reduction even for one file; not registered); manifest de-duplication (symbolic choice between stacks makes CBMC's realloc model in stack_push intractable); metadata stripping and 'transclude base' (engine stubbed)",
-    "trusted_base": ["cbmc/goto-cc 6.11.0 (MiniSat2)", "contract models of strstr/strncpy/strpbrk in C13/tr.c", "lib/ds_sink.c / havoc DString stubs (DString by contract, C19)"],
+    "explanation": "The first sentence of the property (termination on any include graph) is decided by the RECURSION CONTRACT of the real mmd_transclude_source (c13_rec_*: goto-instrument --dfcc --enforce-contract-rec, "
+                   "loop contracts with variants on its three loops, no unwinding anywhere; string CONTENT abstracted so that one run covers every document, file system and include graph): "
+                   "(G) a file is opened / expanded only after its path was compared with EVERY path on the stack of files being expanded and found different (ghost index; also the precondition of every nested call), "
+                   "(S) the stack is restored on return, (T) the marker loop has a variant: the bytes after the search position strictly decrease, (R) the search resumes exactly after the inserted text / the opening braces of a marker left in place "
+                   "(nothing skipped, nothing rescanned), (P) the search position stays inside the string, (M) a path enters the manifest only after it differed from EVERY manifest entry and existing entries are never changed, "
+                   "every object created is released.  Four configurations (parsed NULL / non-NULL x manifest NULL / non-NULL), each in a quick variant (string lengths < 4096: labelled bounded) and a thorough variant (lengths < 2^32: proof). "
+                   "Two bounded units on the real function with real path helpers complete it: c13_marker_buffer (text[1100] accesses for every marker position and length, >= 1000-byte marker skipped) and "
+                   "c13_wildcard (for every output format {{a.*}} requests /a.html | /a.tex | /a.fodt | /a.* | /a.txt, a missing file leaves its marker).",
+    "slice": "mmd_transclude_source (transclude.c); path_from_dir_base/split_path_file/is_separator/add_trailing_sep (file.c) and stack.c bodies in the two bounded units",
+    "not_reached": "the substitution RESULT as bytes (content abstracted in the contract units; the second sentence of the property is reached only for the wildcard table, the marker cap and 'missing files leave their marker'); "
+                   "metadata stripping content and 'transclude base' resolution (engine and path helpers are contract stubs); real file-system semantics; pointer staleness of start/stop after the DString grows (buffers do not move in the stubs)",
+    "trusted_base": ["cbmc/goto-cc/goto-instrument 6.11.0 (DFCC, MiniSat2)", "content-free contract stubs of strstr/strcmp/strncmp/strncpy/strlen/strcpy, DString (lengths as in the C19 contracts), stack (C18 contracts), scan_file, mmd_engine_*, path helpers, my_strdup in C13/guard_rec.c",
+                     "contract models of strstr/strncpy/strpbrk in C13/tr.c", "lib/ds_sink.c / havoc DString stubs (DString by contract, C19)"],
     "assumptions": _C13_STUBS,
 }
 
@@ -58,19 +67,20 @@ def _c13_loops(nested, man):
                                  " && (g_mk >= manifest->size || __CPROVER_same_object(manifest->element[g_mk], g_copies))")
         marker["assigns"] += ", manifest->size, __CPROVER_object_whole(manifest->element), g_copy_next"
     return {"mmd_transclude_source": [guard, mani, marker]}
-_C13_DBG = ["-DDSMAX=40", "-DCAPMAX=3"]
 _C13_KM = 2
-for _n, _h, _nested in (("nested", "h_nested", True), ("top", "h_top", False)):
-    for _m in (False, True):
-        U("c13_rec_" + _n + ("_manifest" if _m else ""), ["C13"], _h, ["C13/guard_rec.c"], ["transclude.c"], enforce="mmd_transclude_source", rec=True,
-          loops=_c13_loops(_nested, _m), lib=(), kind="proof", defines=(["-DWITH_MANIFEST"] if _m else []) + _C13_DBG, drop_bodies=["__CPROVER_file_local_transclude_c_my_strdup"],
+for _n, _h, _nested, _m, _full in [(n, h, ne, m, f) for (n, h, ne) in (("nested", "h_nested", True), ("top", "h_top", False)) for m in (False, True) for f in (False, True)]:
+    if True:
+        U("c13_rec_" + _n + ("_manifest" if _m else "") + ("_full" if _full else ""), ["C13"], _h, ["C13/guard_rec.c"], ["transclude.c"], enforce="mmd_transclude_source", rec=True,
+          loops=_c13_loops(_nested, _m), lib=(), kind=("proof" if _full else "bounded"), tier=("thorough" if _full else "quick"),
+          defines=(["-DWITH_MANIFEST"] if _m else []) + ([] if _full else ["-DDSMAX=4096"]),
+          bounds=({} if _full else {"string lengths <": 4096, "loops, recursion, stack depth, manifest size, number of markers": "unbounded (loop contracts with variants, recursion contract)"}), drop_bodies=["__CPROVER_file_local_transclude_c_my_strdup"],
           functions=["mmd_transclude_source"],
           callees={"recursive call": "its own contract (--enforce-contract-rec): requires checked at the call site",
                    "strstr/strcmp/strncmp/strncpy/strlen/strcpy": "content-free contract stubs (any result; strcmp records which stack / manifest entry it was given and what it answered)",
                    "d_string_*": "length-only contract stubs restating the C19 length arithmetic (erase, insert exact; append any length); objects come from a ghost arena",
                    "stack_new/push/pop/peek_index/free": "contract stubs (C18 contracts; capacity symbolic, growth abstracted)",
                    "my_strdup": "contract stub (fresh string); body removed from the compiled transclude.c object", "path_from_dir_base, split_path_file, is_separator, add_trailing_sep, scan_file, mmd_engine_*": "contract stubs (opaque objects; scan_file is the guard checkpoint)"},
-          small=["-DDSMAX=40", "-DCAPMAX=3"], min_obligations=100, timeout=900, cost=60,
+          small=["-DDSMAX=40", "-DCAPMAX=3"], min_obligations=100, timeout=(2400 if _full else 600), cost=(400 if _full else 70),
           assumptions=["string contents abstracted: every comparison / search result is possible, so every document, file system and include graph is covered",
                        "stack and manifest hold at most 2^20 entries (int loop counters), string lengths at most 2^32, one candidate path, one file buffer and one engine alive at a time per activation (model capacity, asserted)",
                        "buffer growth (realloc inside d_string_insert / stack_push) is not modelled here: capacities are symbolic and executions that outgrow them are covered by a larger capacity; "
